@@ -136,6 +136,9 @@ impl<'repo> ExecuteContext<'repo> {
             }
         }
 
+        #[cfg(stgit_verif)]
+        crate::verif_point::point("exec.start")?;
+
         // Need to cache a few bits of transaction state for later use.
         let trans_head = transaction.head().clone();
         let trans_head_tree_id = trans_head.tree_id()?.detach();
@@ -175,6 +178,9 @@ impl<'repo> ExecuteContext<'repo> {
             stack.log_external_mods(None)?
         };
 
+        #[cfg(stgit_verif)]
+        crate::verif_point::point("exec.after_external_mods")?;
+
         // Roll back by checking out the stack top tree prior to any changes from this
         // stack transaction. The stack state reference must only be updated after all
         // possible rollback points are passed successfully.
@@ -198,6 +204,9 @@ impl<'repo> ExecuteContext<'repo> {
             )
         };
 
+        #[cfg(stgit_verif)]
+        crate::verif_point::point("exec.before_checkout")?;
+
         if options.set_head && options.use_index_and_worktree {
             if !options.allow_bad_head {
                 stack.check_head_top_mismatch()?;
@@ -213,7 +222,13 @@ impl<'repo> ExecuteContext<'repo> {
             .map_err(|e| rollback(current_tree_id, e))?;
         }
 
+        #[cfg(stgit_verif)]
+        crate::verif_point::point("exec.after_checkout")?;
+
         crate::signal::critical(|| {
+            #[cfg(stgit_verif)]
+            crate::verif_point::point("crit.enter")?;
+
             // Commit updated stack state
             let conflict_msg;
             let state_reflog_msg = if has_conflicts {
@@ -226,6 +241,9 @@ impl<'repo> ExecuteContext<'repo> {
             let prev_state_commit = repo
                 .find_reference(stack.get_stack_refname())?
                 .peel_to_commit()?;
+            #[cfg(stgit_verif)]
+            crate::verif_point::point("crit.prev_read")?;
+
             let state = stack.state_mut();
             for (patchname, maybe_patch) in &updated_patches {
                 if let Some(patch) = maybe_patch {
@@ -240,6 +258,9 @@ impl<'repo> ExecuteContext<'repo> {
             state.unapplied = unapplied;
             state.hidden = hidden;
             let state_commit_id = state.commit(repo, None, state_reflog_msg)?;
+
+            #[cfg(stgit_verif)]
+            crate::verif_point::point("crit.state_committed")?;
 
             // Update various refs as a single transaction. This reference transaction is
             // not quite atomic--it is possible for some, but not all references to be
@@ -300,7 +321,16 @@ impl<'repo> ExecuteContext<'repo> {
                 })
             }
 
+            #[cfg(stgit_verif)]
+            {
+                crate::verif_point::dump_ref_edits(&ref_edits);
+                crate::verif_point::point("crit.before_edit")?;
+            }
+
             repo.edit_references(ref_edits)?;
+
+            #[cfg(stgit_verif)]
+            crate::verif_point::point("crit.after_edit")?;
 
             if options.set_head {
                 stack.update_head(
@@ -312,6 +342,9 @@ impl<'repo> ExecuteContext<'repo> {
             Ok(())
         })
         .map_err(|e| rollback(trans_head_tree_id, e))?;
+
+        #[cfg(stgit_verif)]
+        crate::verif_point::point("exec.after_crit")?;
 
         if let Some(err) = error {
             Err(err)
@@ -1104,6 +1137,9 @@ impl<'repo> StackTransaction<'repo> {
                     .into());
                 }
                 self.current_tree_id = ours;
+
+                #[cfg(stgit_verif)]
+                crate::verif_point::point("push.before_wt_merge")?;
 
                 let use_mergetool = config.boolean("stgit.autoimerge").unwrap_or(false);
                 match stupid.merge_recursive_or_mergetool(base, ours, theirs, use_mergetool) {
